@@ -2431,10 +2431,11 @@ FROM (
         for child in node.children:
             child_sql = self.visit(child)
             if not child_sql.strip().upper().startswith("SELECT"):
-                child_sql = (
-                    f"SELECT * FROM "
-                    f"{quote_name(child.value if hasattr(child, 'value') else child_sql)}"
-                )
+                if isinstance(child, AST.VarID):
+                    child_sql = f"SELECT * FROM {quote_name(child.value)}"
+                else:
+                    # e.g. a nested symdiff (a WITH query): use it as a subquery, not as a table name
+                    child_sql = f"SELECT * FROM ({child_sql}) AS _set_operand"
             child_sqls.append(child_sql)
 
         if op == tokens.UNION:
@@ -2475,7 +2476,13 @@ FROM (
         on_clause = self._join_on_clause(id_names, "a", "b")
 
         if op == tokens.INTERSECT:
-            return f"SELECT a.* FROM ({a_sql}) AS a SEMI JOIN ({b_sql}) AS b ON {on_clause}"
+            # intersect is n-ary: keep the datapoints of the first operand present in EVERY other one
+            result_sql = a_sql
+            for other_sql in child_sqls[1:]:
+                result_sql = (
+                    f"SELECT a.* FROM ({result_sql}) AS a SEMI JOIN ({other_sql}) AS b ON {on_clause}"
+                )
+            return result_sql
         elif op == tokens.SETDIFF:
             return f"SELECT a.* FROM ({a_sql}) AS a ANTI JOIN ({b_sql}) AS b ON {on_clause}"
         elif op == tokens.SYMDIFF:
